@@ -584,7 +584,13 @@ func (p C14) Run(c *sim.Ctx, t *sim.Tape) sim.RunResult {
 				}
 			}
 
-			if _, stop := do(admin, o); stop {
+			// the tree also changes at the hands of the user, whose RemoveAll may stop half-way in a directory he may not empty.
+			by := admin
+			if user != nil && t.Chance(400) {
+				by = user
+			}
+
+			if _, stop := do(by, o); stop {
 				return res
 			}
 
